@@ -890,6 +890,7 @@ type getSpec struct {
 	buildFails bool
 	errKind    int             // 0 plain, 1 wraps context.Canceled, 2 wraps context.DeadlineExceeded, 3 wraps cache.ErrNotFound, 4 wraps cache.ErrExpired
 	builderTTL []time.Duration // WithTTL(ctx, t, true) calls made by the builder
+	nestedKey  []byte          // the builder itself calls Get for this (other, "later") key of the same frontend with its own context
 	// post-return caller actions
 	poison       int // 0 = 0xAA fill, 1 = overwrite with otherKey, 2 = leave
 	otherKey     []byte
@@ -930,6 +931,12 @@ func (w *world) builderFor(g *getSpec, t *task) func(ctx context.Context) (strin
 
 		for _, bt := range g.builderTTL {
 			cache.WithTTL(ctx, bt, true)
+		}
+
+		// a builder may depend on another cached value of the same frontend (dependencies are acyclic)
+		if g.nestedKey != nil {
+			ng := &getSpec{idx: -2, key: g.nestedKey}
+			_, _ = w.fe.Get(ctx, append([]byte{}, g.nestedKey...), w.builderFor(ng, t))
 		}
 
 		l.mu.Lock()
